@@ -93,6 +93,11 @@ func TestVerifC09(t *testing.T) {
 				c.fields = append(c.fields, [2]string{authNames[rng.intn(len(authNames))], fmt.Sprintf("Bearer secret-%d", k)})
 			}
 			c.fields = append(c.fields, [2]string{"X-Other", "keep"})
+			if c.ws && i%4 == 0 {
+				// a client that nominates the identity and credential headers as hop-by-hop (shim opens only: on the plain
+				// path a request with a Connection header cannot come out of the proxy, which strips it)
+				c.fields = append(c.fields, [2]string{"Connection", []string{"keep-alive, x-inverting-proxy-user-id", "X-Inverting-Proxy-User-ID", "close, X-INVERTING-PROXY-USER-ID, authorization"}[(i/4)%3]})
+			}
 			// shuffle
 			for a := len(c.fields) - 1; a > 0; a-- {
 				b := rng.intn(a + 1)
